@@ -204,3 +204,34 @@ theorem forceInjective_wf (f : SMap) (hs : 0 < f.start) (hg : GoodBip f.B) {N : 
 
 end SMap
 end Cnfgen.Fam
+
+namespace Cnfgen.Fam
+open Cnfgen
+
+theorem mem_bip_edges (B : BipG) (u v : Nat) : (u, v) ∈ B.edges ↔ 1 ≤ u ∧ u ≤ B.l ∧ v ∈ B.rnbrs u := by
+  simp only [BipG.edges, List.mem_flatMap, List.mem_range, List.mem_map, Prod.mk.injEq]
+  constructor
+  · rintro ⟨i, hi, w, hw, rfl, rfl⟩; exact ⟨by omega, by omega, hw⟩
+  · rintro ⟨h1, h2, h3⟩
+    exact ⟨u - 1, by omega, v, by rw [show u - 1 + 1 = u by omega]; exact h3, by omega, rfl⟩
+
+namespace SMap
+
+/-- the assignment (on the identifiers of the group) that realises the edge labelling `R` -/
+def assignOf (f : SMap) (R : Nat → Nat → Bool) : Assign :=
+  fun x => f.B.edges.any (fun e => f.var e.1 e.2 == x && R e.1 e.2)
+
+theorem assignOf_var (f : SMap) (R : Nat → Nat → Bool) {u v : Nat} (h1 : 1 ≤ u) (h2 : u ≤ f.B.l)
+    (hv : v ∈ f.B.rnbrs u) : f.assignOf R (f.var u v) = R u v := by
+  rw [Bool.eq_iff_iff]
+  simp only [assignOf, List.any_eq_true, Bool.and_eq_true, beq_iff_eq]
+  constructor
+  · rintro ⟨⟨u', v'⟩, he, hvar, hR⟩
+    rw [mem_bip_edges] at he
+    obtain ⟨rfl, rfl⟩ := bipId_inj f.B f.start he.1 he.2.1 he.2.2 h1 h2 hv hvar
+    exact hR
+  · intro hR
+    exact ⟨(u, v), (mem_bip_edges _ _ _).2 ⟨h1, h2, hv⟩, rfl, hR⟩
+
+end SMap
+end Cnfgen.Fam
